@@ -85,6 +85,10 @@ def generate(rng, tier):
         {"op": "put", "on": "Q", "v": 1}, {"op": "sleep", "d": 1},
         {"op": "put", "on": "Q", "v": 2}, {"op": "put", "on": "Q", "v": 3},
         {"op": "put", "on": "Q", "v": 4}]})
+    if rng.random() < 0.3:
+        # a sibling that awaits t and does not handle what it gets
+        siblings.append({"name": "watch", "ops": [
+            {"op": "postpone", "k": 1}, {"op": "await_task", "task": "t", "reraise": True}]})
     rng.shuffle(siblings)
     host_body = []
     if rng.random() < 0.4:
@@ -233,6 +237,15 @@ def check(rec, twin=None):
         if pre:
             bad("prestart-cancel-ran-payload",
                 "t was cancelled while CREATED (tick %d) but its payload ran" % pre[0]["tick"])
+        # a task waiting for its start date (after= / at=) has not started either, whatever
+        # its status says: its first statement logs "start"
+        first_tick = min(ev[0] for ev in t_events if ev[4] == "start")
+        early = [f for f in cancels if f["status"] == "RUNNING" and f["tick"] < first_tick]
+        if early and not pre:
+            bad("prestart-cancel-ran-payload",
+                "t was cancelled at t=%r (tick %d) before any of its code had run, but its "
+                "payload started afterwards (tick %d)" % (early[0]["time"], early[0]["tick"],
+                                                           first_tick))
     if t_exc is not None and t_exc[5][0] == "CancelTask":
         meta = t_exc[5]
         if meta[1] != "task:t":
